@@ -94,6 +94,13 @@ static std::string guarded(F&& f) {
 }
 // scratch file prefix for the file-name overloads (derived from --out in main)
 static std::string g_tmp = "build/c12_scratch";
+// the overload cross-check costs two file writes and eight extra parses: when generating it runs on every 2nd
+// (quick) / 8th (thorough) document, chosen by a hash of the document; a replay (corpus, shrinking, --replay)
+// always checks, so a failure found in a generated batch is reproduced
+static unsigned g_overloadEvery = 1;
+static bool overloadSampled(const std::string& doc) {
+  return g_overloadEvery <= 1 || std::hash<std::string>{}(doc) % g_overloadEvery == 0;
+}
 
 // ------------------------------------------------------------------------------------------------
 // reference (shadow) tree: insertion-ordered vectors, written without any Dune code
@@ -442,7 +449,8 @@ static Result execIni(const std::vector<std::string>& w) {
   Result res;
   TwoRes got = runTwo(pre, doc, ow);
   res.impl = got.impl;
-  if (std::string oc = overloadCheck(pre, doc, ow, got.impl); !oc.empty()) { res.oracle = "FAIL " + oc; return res; }
+  if (overloadSampled(doc))
+    if (std::string oc = overloadCheck(pre, doc, ow, got.impl); !oc.empty()) { res.oracle = "FAIL " + oc; return res; }
   auto e1 = strictParse(pre), e2 = strictParse(doc);
   if (!e1 || !e2) { res.oracle = "ok trivial"; stat("ini_outside_dialect"); return res; }
   std::string j = judgeTwo(got, *e1, *e2, ow);
@@ -472,7 +480,8 @@ static Result execRt(const std::vector<std::string>& w, const std::string& tail)
   Result res;
   TwoRes got = runTwo(d1, d2, ow);
   res.impl = std::string("wf=") + (wf ? "true" : "false") + " pre=" + hx(d1) + " doc=" + hx(d2) + " " + got.impl;
-  if (std::string oc = overloadCheck(d1, d2, ow, got.impl); !oc.empty()) { res.oracle = "FAIL " + oc; return res; }
+  if (overloadSampled(d2))
+    if (std::string oc = overloadCheck(d1, d2, ow, got.impl); !oc.empty()) { res.oracle = "FAIL " + oc; return res; }
   if (!wf) { res.oracle = "ok trivial"; stat("rt_not_wf"); return res; }
   std::string j = judgeTwo(got, denote(pre), denote(mainItems), ow);
   if (j == "?") { res.oracle = "ok trivial"; stat("rt_conflict"); }
@@ -1659,6 +1668,9 @@ static std::string gen(Rng& r, long, const Args& a) {
 }
 
 int main(int argc, char** argv) {
-  for (int i = 1; i + 1 < argc; ++i) if (std::string(argv[i]) == "--out") g_tmp = std::string(argv[i + 1]) + ".scratch";
+  for (int i = 1; i + 1 < argc; ++i) {
+    if (std::string(argv[i]) == "--out") g_tmp = std::string(argv[i + 1]) + ".scratch";
+    if (std::string(argv[i]) == "--tier") g_overloadEvery = std::string(argv[i + 1]) == "thorough" ? 8 : 2;
+  }
   return dv::run(argc, argv, gen, exec);
 }
